@@ -45,8 +45,14 @@ def applyActs (t : Int) (sl : List (Option Pending)) (retired : List (Nat × Pen
   | a :: r =>
     let cur := sl[a.machine]?.join
     let new := slotSpec cur t a
+    -- an action that overwrites or clears the slot supersedes the pending one even when it is an
+    -- identical re-issue (same action, same due time); UpdateTimer / Cancel Internal leave it alone
+    let touches : Bool := match a with
+      | .sendPadding .. | .blockOutgoing .. => true
+      | .cancel _ tm => tm == .action || tm == .all
+      | .updateTimer .. => false
     let retired := match cur with
-      | some p => if new == some p then retired else (a.machine, p) :: retired
+      | some p => if touches then (a.machine, p) :: retired else retired
       | none => retired
     applyActs t (sl.set a.machine new) retired r
 
